@@ -6,6 +6,7 @@ import QP.Proofs.PTTop2W
 import QP.Proofs.PTTop3W
 import QP.Proofs.PTSingle
 import QP.Proofs.PTDurTop
+import QP.Proofs.PTDurTable
 /-!
 # C04 — durations are exact and the template, the program and its pieces agree on them
 
@@ -135,6 +136,38 @@ theorem template_duration_func (id : Option String) (ch : Chan) (dur e : Expr) (
     (cons : List Expr) (σ : Scope) (cm : List (Chan × Option Chan)) (o : Chan)
     (hkeep : cm.lookup ch = some (some o)) : Live (.func id ch dur e meas cons) σ cm :=
   Live.atom (durAtom_func id ch dur e meas cons σ cm o hkeep)
+
+/-- the atom statement for `TablePT`: it keeps a channel (`duration` = the maximum over ALL channels of the last entry
+time; `get_entries_instantiated` pads every channel to exactly that time) -/
+theorem template_duration_table (id : Option String) (entries : List (Chan × List TEntry)) (meas : List MeasDecl)
+    (cons : List Expr) (σ : Scope) (cm : List (Chan × Option Chan))
+    (hkeep : ∃ ch es o, (ch, es) ∈ entries ∧ cm.lookup ch = some (some o)) :
+    Live (.table id entries meas cons) σ cm :=
+  Live.atom (durAtom_table id entries meas cons σ cm hkeep)
+
+/-- the atom statement for `PointPT`: it keeps a channel -/
+theorem template_duration_point (id : Option String) (chans : List Chan) (entries : List PEntry)
+    (meas : List MeasDecl) (cons : List Expr) (σ : Scope) (cm : List (Chan × Option Chan))
+    (hkeep : ∃ c o, c ∈ chans ∧ cm.lookup c = some (some o)) :
+    Live (.point id chans entries meas cons) σ cm :=
+  Live.atom (durAtom_point id chans entries meas cons σ cm hkeep)
+
+/-- the atom statement for `AtomicMultiChannelPT` (explicit `duration` or not): its first sub-template satisfies the
+statement and denotes a non-empty pulse -/
+theorem template_duration_atomicMulti (id : Option String) (p1 : PT) (ps : List PT) (dur : Option Expr)
+    (meas : List MeasDecl) (cons : List Expr) (σ : Scope) (cm : List (Chan × Option Chan))
+    (h1 : DurAtom p1 σ cm) (hne : ∀ mm P1, denote p1 σ mm cm = .ok P1 → P1.chans ≠ []) :
+    Live (.atomicMulti id (p1 :: ps) dur meas cons) σ cm :=
+  Live.atom (durAtom_atomicMulti id p1 ps dur meas cons σ cm h1 hne)
+
+/-- the atom statement for `ArithmeticAtomicPT`: both operands satisfy it and denote non-empty pulses -/
+theorem template_duration_arithAtomic (id : Option String) (lhs : PT) (minus : Bool) (rhs : PT)
+    (meas : List MeasDecl) (σ : Scope) (cm : List (Chan × Option Chan))
+    (hl : DurAtom lhs σ cm) (hr : DurAtom rhs σ cm)
+    (hnl : ∀ mm P, denote lhs σ mm cm = .ok P → P.chans ≠ [])
+    (hnr : ∀ mm P, denote rhs σ mm cm = .ok P → P.chans ≠ []) :
+    Live (.arithAtomic id lhs minus rhs meas) σ cm :=
+  Live.atom (durAtom_arithAtomic id lhs minus rhs meas σ cm hl hr hnl hnr)
 
 /-- the hypotheses matter: a `ConstantPT` all of whose channels are dropped has `duration = 2` and no program -/
 example : templateDuration exPt (.dict []) = .ok 2 ∧ denote exPt (.dict []) [] [("A", none)] = .ok Pulse.empty := by
